@@ -4,6 +4,7 @@ package main
 
 import (
 	"fmt"
+	"sort"
 	"go/token"
 	"go/types"
 
@@ -595,5 +596,83 @@ func init() {
 	addControls(
 		Control{Name: "indented-code-end-pulled-back-to-last-line", Props: []string{"C02", "C01"}, File: "blocks.go",
 			Old: "\t\t\t\tblock.inlineChildren = block.inlineChildren[:i:i]\n", New: "\t\t\t\tblock.inlineChildren = block.inlineChildren[:i:i]\n\t\t\t\tblock.span.End = child.Span().Start\n", Expect: "HOOK-END/blockRules[IndentedCodeBlockKind]"},
+	)
+}
+
+// ---------------------------------------------------------------------------------------------
+// SPAN-ORDER: a span written as (X+a, X+b) has a <= b.
+
+func ruleSpanOrder(c *Ctx) {
+	c.Rule("SPAN-ORDER", "Every span is a valid range (Start <= End). Where package commonmark builds a Span whose Start and End are the same term plus constants — {Start: pos, End: pos+1}, {Start: p.lineStart+p.i, End: p.lineStart+p.i+1}, {Start: start+1, End: end-1} is not of this form — the constant of End is not smaller than the constant of Start. A sign slip (pos-1 for pos+1) gives a node whose span is not a range; nothing that renders from children notices it.")
+	p := c.P
+	n := 0
+	for _, fn := range p.Funcs {
+		if fn.Pkg != p.CMs || fn.Blocks == nil {
+			continue
+		}
+		// group stores by the Span address base
+		type pair struct {
+			start, end ssa.Value
+			pos        token.Pos
+		}
+		spans := map[ssa.Value]*pair{}
+		eachInstr(fn, func(in ssa.Instruction) {
+			st, ok := in.(*ssa.Store)
+			if !ok {
+				return
+			}
+			fa, ok := st.Addr.(*ssa.FieldAddr)
+			if !ok {
+				return
+			}
+			tn, f, _ := fieldAddrInfo(fa)
+			if tn != "Span" || (f != "Start" && f != "End") {
+				return
+			}
+			pr := spans[fa.X]
+			if pr == nil {
+				pr = &pair{}
+				spans[fa.X] = pr
+			}
+			if f == "Start" {
+				pr.start = st.Val
+			} else {
+				pr.end, pr.pos = st.Val, st.Pos()
+			}
+		})
+		site := 0
+		var ordered []*pair
+		for _, pr := range spans {
+			ordered = append(ordered, pr)
+		}
+		sort.Slice(ordered, func(i, j int) bool { return ordered[i].pos < ordered[j].pos })
+		for _, pr := range ordered {
+			if pr.start == nil || pr.end == nil {
+				continue
+			}
+			sb, sk := linTerm(pr.start)
+			eb, ek := linTerm(pr.end)
+			if _, isC := sb.(*ssa.Const); isC {
+				continue
+			}
+			if !(sb == eb || sameTerm(sb, eb)) {
+				continue
+			}
+			n++
+			site++
+			if ek < sk {
+				c.Viol("SPAN-ORDER", fmt.Sprintf("%s:span#%d", shortFuncName(fn), site), pr.pos, fmt.Sprintf("Start is the term %+d, End the same term %+d: End < Start", sk, ek))
+			}
+		}
+	}
+	c.Analysed["spans_written_as_term_plus_constants"] = n
+	c.Check(n >= 10, "SPAN-ORDER", "instances", token.NoPos, fmt.Sprintf("%d spans of the form (X+a, X+b) inspected (at least 10 on the reference tree)", n))
+}
+
+func init() {
+	addControls(
+		Control{Name: "open-bracket-text-span-end-before-start", Props: []string{"C02"}, File: "inlines.go",
+			Old: "\t\t\t\t\tnode := &Inline{\n\t\t\t\t\t\tkind: TextKind,\n\t\t\t\t\t\tspan: Span{\n\t\t\t\t\t\t\tStart: pos,\n\t\t\t\t\t\t\tEnd:   pos + 1,\n\t\t\t\t\t\t},\n\t\t\t\t\t}\n\t\t\t\t\tstate.addToRoot(node)\n\t\t\t\t\tstate.stack = append(state.stack, delimiterStackElement{\n\t\t\t\t\t\ttyp:   inlineDelimiterLink,",
+			New: "\t\t\t\t\tnode := &Inline{\n\t\t\t\t\t\tkind: TextKind,\n\t\t\t\t\t\tspan: Span{\n\t\t\t\t\t\t\tStart: pos,\n\t\t\t\t\t\t\tEnd:   pos - 1,\n\t\t\t\t\t\t},\n\t\t\t\t\t}\n\t\t\t\t\tstate.addToRoot(node)\n\t\t\t\t\tstate.stack = append(state.stack, delimiterStackElement{\n\t\t\t\t\t\ttyp:   inlineDelimiterLink,", Expect: "SPAN-ORDER/(*InlineParser).parse:span"},
 	)
 }
